@@ -136,6 +136,11 @@ def build_inputs(case):
         mv = [300.0, 330.0, np.nan]
     else:
         raise ValueError(meter_kind)
+    for k in case.get("meter_gaps", []):
+        # a meter day without a usable reading (NaN): the day keeps its place on the METER's lattice and its temperature is still the
+        # mean of its own readings
+        if 0 < k < len(mv) - 1:
+            mv[k] = np.nan
     meter = pd.Series(mv, index=to_index(mt, zone), name="value")
     if case["entry"] == "from_series":
         return ("series", meter, temp), days, times, values
@@ -190,6 +195,10 @@ def run_case(case):
         else:
             data = cls(inputs[1], is_electricity_data=True)
     except Exception as exc:
+        if case.get("meter_gaps") and isinstance(exc, ValueError) and "Billing data is not allowed" in str(exc):
+            # five readings in the six-day window, two of the four spacings above one day (the gap and the 25-hour day): the class
+            # takes the meter for billing data.  Which meters a class accepts is C10's subject; nothing to judge about temperature
+            return {"behaviour": ["gapped_meter_refused_as_billing"], "rejected": "gapped six-day meter classified as billing data"}
         return {"behaviour": ["raised", type(exc).__name__],
                 "violations": [{"clause": "raised", "key": dict(key0, exc=type(exc).__name__),
                                 "detail": f"runs {case.get('runs')}: {type(exc).__name__}: {str(exc)[:300]}"}]}
@@ -282,6 +291,15 @@ def cases(tier):
         for runs in run_sets(n, base["feed"], d, lattice):
             out.append(dict(base, runs=runs))
 
+    # ---- a meter day without a reading (hourly feed): every interior day, both daily meters / entries (two missing days in the
+    # 6-day window make the class take the meter for billing data: an acceptance matter, C10)
+    for z in meter_zones:
+        for w in ("spring", "autumn"):
+            for meter in ("daily00", "daily06"):
+                for entry in ("from_series", "frame"):
+                    for gaps in [[k] for k in range(1, N_DAYS - 1)]:
+                        out.append({"family": "daily", "cls": "baseline", "entry": entry, "feed": 60, "feed_zone": "same", "meter": meter,
+                                    "zone": z, "window": w, "dst_pos": N_DAYS // 2, "runs": [], "meter_gaps": gaps})
     # ---- d = 0: every feed zone, every position of the DST day in the window, every meter / entry / class
     for z in meter_zones:
         for w in ("spring", "autumn"):
